@@ -81,9 +81,7 @@ def bin_op(a, b, i):
 
 
 def bin_op_s(a, b, i_s):
-    assert a[0].shape == b[0].shape, (a[0].shape, b[0].shape)
-    if a.shape[0] > 1:
-        assert a[1].shape == b[1].shape, (a[1].shape, b[1].shape)
+    assert a.shape == b.shape, (a.shape, b.shape)
     r = torch.zeros_like(a)
     for i in range(16):
         u = ID_TO_OP[i](a, b)
